@@ -20,6 +20,10 @@ class VErr(Exception):
         self.vid = i
 
 
+# params.fault_classes: scripted faults are instances of these classes (chosen by fault id), carrying their id in .vid
+FAULT_CLASSES = (TypeError, AssertionError, KeyError, RuntimeError, ValueError)
+
+
 class VBaseErr(BaseException):
     """a fault that is not an Exception (like KeyboardInterrupt, SystemExit or a timeout signal class)"""
     def __init__(self, i):
@@ -30,6 +34,8 @@ class VBaseErr(BaseException):
 def eid(e):
     if isinstance(e, (VErr, VBaseErr)):
         return e.vid
+    if isinstance(getattr(e, "vid", None), int) and type(e) in FAULT_CLASSES:
+        return e.vid        # params.fault_classes: a scripted fault of a builtin exception class
     if isinstance(e, TypeError):
         return -1
     if isinstance(e, AssertionError):
@@ -248,6 +254,7 @@ class Tr:
         self.counter = 0
         self.base_errors = bool(case.get("params", {}).get("base_errors"))
         self.vary_bad = bool(case.get("params", {}).get("vary_bad"))
+        self.fault_classes = bool(case.get("params", {}).get("fault_classes"))
         self.nbad = 0
 
     def aux(self, e):
@@ -267,10 +274,17 @@ class Tr:
         # params.base_errors: every third fault id is a BaseException that is not an Exception
         if self.base_errors and i % 3 == 0:
             return VBaseErr(i)
+        return self._classed(i)
+
+    def _classed(self, i):
+        if self.fault_classes and i % 6 != 0:
+            e = FAULT_CLASSES[i % 6 - 1]("scripted fault %d" % i)
+            e.vid = i
+            return e
         return VErr(i)
 
     def lazy_err(self, i):
-        return VErr(i)      # Future._compute stores Exceptions only (futures.py 197-201): lazy providers raise Exceptions
+        return self._classed(i)      # Future._compute stores Exceptions only (futures.py 197-201): lazy providers raise Exceptions
 
     BADS = (12345, 0, "", False, 0.0, b"", "abc")
 
